@@ -105,6 +105,10 @@ def s_chain(draw, min_len=1, max_len=6, worm='maybe', locking=None, optional_dat
                 f = crit * draw(st.floats(0.01, 0.9))      # a wheel can only drive a non-self-locking worm
             el = {'J': J, 'link': {'kind': 'worm', 'f': f}, 'helix': _requal(prev['helix'], 'Angle', draw, requal),
                   'pressure': list(prev['pressure'])}
+            if draw(st.integers(0, 4)) == 0:
+                # the same pair was declared before with other friction coefficients (either side of the criterion)
+                el['link']['f_prev'] = draw(st.lists(st.sampled_from([0.01, 0.05, 0.3, 0.6, 0.9, 1.0]), min_size=1,
+                                                     max_size=2))
             if worm_master:
                 el.update(type='wheel', n_teeth=draw(st.integers(10, 80)))
             else:
@@ -218,34 +222,36 @@ def s_init(draw, mdl: M.Model, at_rest=None):
             'speed': qty('AngularSpeed', speed, draw(s_unit('AngularSpeed')))}
 
 
-def s_run(draw, mdl: M.Model, min_steps=3, max_steps=40, c=(0.02, 1.2), same_unit=None):
+def s_run(draw, mdl: M.Model, min_steps=3, max_steps=40, c=(0.02, 1.2), same_unit=None, nonmultiple=False):
     dt_si = draw(st.floats(*c)) / mdl.k
     n = draw(st.integers(min_steps, max_steps))
     u = draw(s_unit('TimeInterval'))
     dt = qty('TimeInterval', dt_si, u)
     same = draw(st.booleans()) if same_unit is None else same_unit
+    # a duration that is not a multiple of the step is rounded up by the solver to n steps, all dt apart
+    frac = draw(st.floats(0.1, 0.9)) if nonmultiple and draw(st.integers(0, 4)) == 0 else 0.0
     if same:
-        T = [dt[0] * n, u]
+        T = [dt[0] * (n - frac), u]
     else:
         u2 = draw(s_unit('TimeInterval'))
-        T = qty('TimeInterval', dt_si * n, u2)
+        T = qty('TimeInterval', dt_si * (n - frac), u2)
     return {'op': 'run', 'dt': dt, 'T': T, 'steps': n}
 
 
 @st.composite
 def s_case(draw, max_len=6, worm='maybe', locking=None, histories=('run', 'run+continue', 'reset+rerun'),
-           load_kinds=('const', 'speed', 'pos', 'time'), currents=None, max_steps=40):
+           load_kinds=('const', 'speed', 'pos', 'time'), currents=None, max_steps=40, nonmultiple=False):
     case = {'motor': draw(s_motor(currents=currents)),
             'chain': draw(s_chain(max_len=max_len, worm=worm, locking=locking))}
     mdl = M.Model(case)
     case['load'] = s_load(draw, mdl, load_kinds)
     case['init'] = s_init(draw, mdl)
     h = draw(st.sampled_from(list(histories)))
-    run1 = s_run(draw, mdl, max_steps=max_steps)
+    run1 = s_run(draw, mdl, max_steps=max_steps, nonmultiple=nonmultiple)
     if h == 'run':
         case['history'] = [run1]
     elif h == 'run+continue':
-        case['history'] = [run1, s_run(draw, mdl, max_steps=max(3, max_steps // 2))]
+        case['history'] = [run1, s_run(draw, mdl, max_steps=max(3, max_steps // 2), nonmultiple=nonmultiple)]
     else:
         reset = {'op': 'reset', 'reinit': True}
         if draw(st.booleans()):
@@ -304,7 +310,10 @@ def s_case_controlled(draw, **kw):
     rules = s_constant_rules(draw, horizon(case))
     if rules:
         case['control'] = rules
-        for op in case['history']:
-            if op['op'] == 'run':
-                op['control'] = True
+        runs = [op for op in case['history'] if op['op'] == 'run']
+        for op in runs:
+            op['control'] = True
+        if len(runs) == 2 and case['history'][1]['op'] == 'run' and draw(st.integers(0, 3)) == 0:
+            # the motor control is handed to only one of the two runs of a continued simulation
+            runs[draw(st.integers(0, 1))]['control'] = False
     return case
